@@ -115,7 +115,7 @@ pub fn get_apid_for_tag(namespace: u32, tag: &str) -> DltChar4 {
                         let has_underscores = trimmed_tag.contains('_');
                         if has_underscores {
                             // assume snake case
-                            let nr_underscore = trimmed_tag.chars().fold(0u32, |acc, c| {
+                            let nr_underscore = trimmed_tag.chars().fold(0usize, |acc, c| {
                                 if c == '_' {
                                     acc + 1
                                 } else {
@@ -149,7 +149,7 @@ pub fn get_apid_for_tag(namespace: u32, tag: &str) -> DltChar4 {
                             DltChar4::from_str(&get_4digit_str(&abbrev, iteration))
                         } else {
                             // assume camel case
-                            let nr_capital = trimmed_tag.chars().fold(0u32, |acc, c| {
+                            let nr_capital = trimmed_tag.chars().fold(0usize, |acc, c| {
                                 if c.is_ascii_uppercase() {
                                     acc + 1
                                 } else {
